@@ -21,6 +21,7 @@ var (
 	cidr6Pool = []string{
 		"2001:db8::/32", "fd00::/8", "::1/128", "::/0", "fe80::/10", "2001:db8:1::/48", "2001:db8::1/128",
 		"2001:db8:0:1::/64", "::6/128", "ff00::/8", "2001:db8:a:b:c:d:e:f/128", "0:0:1::/48", "1::/16",
+		"::ffff:10.0.0.0/104", "::ffff:1.2.3.4/128", "::ffff:127.0.0.1/128",
 	}
 	dns4Pool = []string{"127.0.0.53", "10.96.0.10", "8.8.8.8", "169.254.20.10"}
 	dns6Pool = []string{"fd00::a", "2001:4860:4860::8888", "::7f00:35", "fd00:ec2::253"}
@@ -268,36 +269,70 @@ func gen(stream string, seed uint64, n int, path string) {
 	}
 }
 
-// genEnvCase: the configuration goes through DefaultConfig + real flags + FillConfigFromEnvironment.
-// Environment-only fields use `~` for "variable unset"; flag fields use `~` for "flag absent".
+var addrPool = []string{"10.1.2.3", "2001:db8::3", "192.168.7.7", "fd00::7", "fe80::1", "169.254.10.10", "127.0.0.1", "::1",
+	"ff02::1", "224.0.0.1", "ff12::5", "fe90::2", "febf::9", "fec0::1", "169.253.1.1", "224.0.1.1"}
+
+// genEnvCase: one invocation of the binary: DefaultConfig + real flags / environment variables +
+// FillConfigFromEnvironment on a host with the drawn interface addresses.
+// Environment-only fields use `~` for "variable unset"; the other fields `~` for "absent".
 func genEnvCase(r *wire.Rng, c rawCfg, out *wire.Out) {
+	e := envCase{vals: c, via: map[string]string{}}
 	if r.Chance(1, 3) {
-		c.ProxyGID = "" // defaults to the (possibly defaulted) UID
+		e.vals.ProxyGID = "" // defaults to the (possibly defaulted) UID
 	}
-	if r.Chance(1, 4) {
-		c.ProxyUID = "" // defaults to ENVOY_USER's uid / 1337
+	if r.Chance(1, 3) {
+		e.vals.ProxyUID = "" // defaults to ENVOY_USER's uid / 1337
+		e.envoyUser = wire.Pick(r, []string{"", "", "games", "man", "no-such-user"})
 	}
-	for _, f := range []*string{&c.ProxyPort, &c.InboundCapturePort, &c.InboundTunnelPort, &c.TProxyMark, &c.Mode} {
+	for _, f := range []*string{&e.vals.ProxyPort, &e.vals.InboundCapturePort, &e.vals.InboundTunnelPort, &e.vals.TProxyMark, &e.vals.Mode} {
 		if r.Chance(1, 2) {
 			*f = ""
 		}
 	}
-	if c.OwnerGroupsInclude == "*" && r.Chance(1, 2) {
-		c.OwnerGroupsInclude = "" // unset
+	if e.vals.OwnerGroupsInclude == "*" && r.Chance(1, 2) {
+		e.vals.OwnerGroupsInclude = "" // unset
 	}
-	if c.LoCidr == "127.0.0.1/32" && r.Chance(1, 2) {
-		c.LoCidr = ""
+	if e.vals.LoCidr == "127.0.0.1/32" && r.Chance(1, 2) {
+		e.vals.LoCidr = ""
 	}
 	if r.Chance(1, 3) {
-		c.RedirectDNS = true
-		c.CaptureAllDNS = r.Chance(1, 3)
+		e.vals.RedirectDNS = true
+		e.vals.CaptureAllDNS = r.Chance(1, 3)
 	}
-	c.DNSV4, c.DNSV6 = nil, nil // come from /etc/resolv.conf
-	t := c.tokens()
-	t[0] = "envcfg"
-	t = append(t, wire.Enc(envoyUID()), wire.EncList(resolvServers()))
-	out.Line(t...)
-	res, _ := runRealEnv(c, c.OwnerGroupsInclude != "", c.OwnerGroupsExclude != "", c.LoCidr != "")
+	e.vals.DNSV4, e.vals.DNSV6 = nil, nil // come from /etc/resolv.conf
+	// the source of each value: flag, the flag's environment variable, or the additional variable
+	for _, ce := range contract {
+		if _, ok := e.value(ce.field); !ok {
+			continue
+		}
+		switch {
+		case ce.alt != "" && r.Chance(1, 3):
+			e.via[ce.field] = "alt"
+		case ce.env != "" && r.Chance(1, 4):
+			e.via[ce.field] = "env"
+		}
+	}
+	// the host: interface addresses (loopback and link-local first or in between, both family orders)
+	e.dual = r.Chance(1, 2)
+	n := 1 + r.Intn(5)
+	for i := 0; i < n; i++ {
+		e.addrs = append(e.addrs, wire.Pick(r, addrPool))
+	}
+	if r.Chance(5, 6) { // mostly a real pod address somewhere in the list
+		i := r.Intn(len(e.addrs) + 1)
+		e.addrs = append(e.addrs[:i], append([]string{wire.Pick(r, addrPool[:4])}, e.addrs[i:]...)...)
+	}
+	if r.Chance(1, 2) {
+		e.addrs = append([]string{"127.0.0.1", "::1"}, e.addrs...)
+	}
+	if e.dual {
+		e.via["DualStack"] = wire.Pick(r, []string{"", "", "env", "alt"})
+	}
+	e.vals.IPv6 = false // ignored: the family comes from getLocalIP
+	e.uid = expectedUID(e.envoyUser)
+	e.resolv = resolvServers()
+	out.Line(e.tokens()...)
+	res, _ := runRealEnv(e)
 	for k := 0; k <= len(res.v4); k++ {
 		out.Line("r", "4", strconv.Itoa(k))
 	}
@@ -333,18 +368,13 @@ func execOps(stream, in, outPath string) {
 				out.Line(cur.status)
 			}
 		case "envcfg":
-			if len(t) != 27 {
-				cur, rs = compiled{}, nil
-				out.Line("bad-op")
-				break
-			}
-			c, ok := rawFromTokens(append([]string{"cfg"}, t[1:25]...))
+			e, ok := envCaseFromTokens(t)
 			if !ok {
 				cur, rs = compiled{}, nil
 				out.Line("bad-op")
 				break
 			}
-			cur, curCfg = runRealEnv(c, t[10] != "~", t[11] != "~", t[24] != "~")
+			cur, curCfg = runRealEnv(e)
 			rs = nil
 			if cur.status == "ok" {
 				out.Line(cur.okLine()...)
